@@ -406,6 +406,9 @@ def write_if_changed(path, content):
     return False
 
 
+T5_GROUPS = (("bv", "FnsBv.v"), ("rsn2", "FnsRsn2.v"), ("rsw2", "FnsRsw2.v"), ("rss", "FnsRss.v"))
+
+
 def main():
     os.makedirs(OUT, exist_ok=True)
     try:
@@ -457,6 +460,19 @@ def main():
             one = " ".join(msg.split())[-300:].replace("*)", "* )").replace("(*", "( *")
             write_if_changed(leaves, "(* gen_leaves failed: %s *)\nDefinition gen_leaves_failed : unit := tt.\n" % one)
             print("gen: %s STUB (gen_leaves exit %d: %s)" % (fname, p.returncode, one))
+        else:
+            print("gen: %s ok" % fname)
+    # T5: the query algorithms (loops, searches, checked wrappers), translated by tools/gen_fns.py
+    for group, fname in T5_GROUPS:
+        out = os.path.join(OUT, fname)
+        p = subprocess.run([sys.executable, os.path.join(os.path.dirname(os.path.abspath(__file__)), "gen_fns.py"),
+                            "--repo", REPO, "--out", out, "--group", group],
+                           stdout=subprocess.PIPE, stderr=subprocess.STDOUT)
+        msg = p.stdout.decode(errors="replace").strip()
+        if p.returncode != 0:
+            one = " ".join(msg.split())[-300:].replace("*)", "* )").replace("(*", "( *")
+            write_if_changed(out, "(* gen_fns failed: %s *)\nDefinition gen_fns_failed : unit := tt.\n" % one)
+            print("gen: %s STUB (gen_fns exit %d: %s)" % (fname, p.returncode, one))
         else:
             print("gen: %s ok" % fname)
     return 0
